@@ -198,6 +198,18 @@ func c08box(r *h.Rand, lo, hi float64, half bool) [4]float64 {
 
 // c08genRing makes a closed ring of one of several shapes.
 func c08genRing(r *h.Rand) (ring []P, kind string) {
+	if r.P(1, 12) {
+		// a zigzag sweeping across the whole box: vertices alternately far to the left and far to the right of it, heights
+		// halving from far above down to inside (each clipping pass adds about half as many vertices again)
+		k := r.Range(5, 13)
+		y := math.Ldexp(1, k+3)
+		var l []P
+		for i := 0; i < k; i++ {
+			l = append(l, P{-float64(r.Range(5, 20)), -y / 2}, P{12 + float64(r.Range(5, 20)), y})
+			y /= 2
+		}
+		return gen.Close(l), "sweeping-zigzag"
+	}
 	switch r.Intn(6) {
 	case 0:
 		return gen.Close(gen.GridList(r, r.Range(3, 9), 0, 1, 12)), "grid"
@@ -568,6 +580,9 @@ func init() {
 						}
 					}
 					n := r.Range(1, 6)
+					if r.P(1, 40) {
+						n = r.Range(60, 140) // more members than bits in a machine word
+					}
 					var coll orb.Collection
 					for i := 0; i < n; i++ {
 						g := mk()
